@@ -404,7 +404,7 @@ pub fn cases(tier: Tier) -> Vec<Case> {
     for count in counts {
         for mix in [c15::Mix::Senders, c15::Mix::Receivers, c15::Mix::Alternating] {
             for data in [c15::DataPart::Small, c15::DataPart::P3] {
-                v.push(Case::Count(c15::Case { count, mix, data }));
+                v.push(Case::Count(c15::Case { count, mix, data, enobufs: 0 }));
             }
         }
     }
